@@ -50,10 +50,11 @@ def gen_case(rng, tier, index):
         return {"n": rng.choice([L, L + 1, 2 * L, rng.randint(1, 3 * L), rng.randint(L, 200)]), "wells": ids, "form": form}
     if kind == "dups" and rng.random() < 0.5:
         # n as a numpy integer (a count that comes out of numpy arithmetic: `R, C = numpy.array(plate.shape)`)
-        L = rng.randint(1, 26)
+        L = rng.choice([1, 1, 2, rng.randint(1, 26)])
         ids = _ids(L)
-        return {"n": {"__npint__": [rng.choice(["int64", "int32", "uint8", "intp"]), rng.randint(0, 100)]}, "wells": ids,
-                "form": rng.choice(["list", "array"])}
+        dt, top = rng.choice([("int64", 100), ("int32", 100), ("uint8", 255), ("int8", 127), ("int16", 32767), ("uint16", 65535), ("intp", 100)])
+        nv = rng.choice([top, top, top - 1, rng.randint(0, min(top, 300))])  # also the largest count the type can hold
+        return {"n": {"__npint__": [dt, nv]}, "wells": ids, "form": rng.choice(["list", "array"])}
     if kind == "large":
         L = rng.randint(1, 26)
         n = rng.choice([rng.randint(301, 5000), rng.randint(5000, 100000), L * rng.randint(12, 400), L * rng.randint(12, 400) + 1])
